@@ -402,6 +402,11 @@ def parts(tier):
         lo, hi = W.value_range(2)
         for samples in ((hi, lo, hi, lo), (lo,) * 6, (hi,) * 6 + (lo,), (0,) * 7, (5, 5, 5, 0, 5, 5, 5, 5, 5)):
             yield (2, 1000, samples)
+        # high frame rates (192 kHz, 1 MHz: ultrasonic / bat-detector recordings): one sample lasts 5 us / 1 us - shorter than any "small" constant in seconds
+        for samples in itertools.product((-2, 0, 1), repeat=5):
+            yield (2, 192000, samples)
+        for samples in itertools.product((-2, 1), repeat=6):
+            yield (2, 1000000, samples)
         # values that need more than one byte: the packed bytes of two neighbouring samples contain runs of zero BYTES that are no zero SAMPLE
         # (200 = c8 00 next to 512 = 00 02; 77 next to 65536 in 32 bit) - a crossing is a property of samples
         for n in (2, 3, 4):
